@@ -12,7 +12,7 @@ def step_{name}(mask: int, n1: int, n2: int, rep: int) -> int:
     pre: -1 <= rep <= {repmax}
     post: _ == 0
     """
-    return len(step('{cls}', mask, n1, n2, rep))
+    return len(step('{cls}', mask, n1, n2, rep)) + len(step_dup('{cls}', mask, n1, n2, rep))
 
 
 def step_{name}_reach(mask: int, n1: int, n2: int, rep: int) -> int:
@@ -35,7 +35,7 @@ def gen(tier):
     os.makedirs(d, exist_ok=True)
     path = os.path.join(d, 'gen_ch_C13.py')
     with open(path, 'w') as f:
-        f.write('from harness.c13lib import step\n')
+        f.write('from harness.c13lib import step, step_dup\nfrom harness.planlib import ci, NoTracing\n')
         names = []
         for cls in c13lib.BUILDERS:
             chunks = [(i * 4, i * 4 + 4) for i in range(16)] if cls == 'Select' else [(0, 64)]
@@ -50,7 +50,7 @@ def mk_replay(cls):
     def replay(args):
         from harness import c13lib
         try:
-            pr = c13lib.step(cls, args['mask'], args['n1'], args['n2'], args['rep'])
+            pr = c13lib.step(cls, args['mask'], args['n1'], args['n2'], args['rep']) + c13lib.step_dup(cls, args['mask'], args['n1'], args['n2'], args['rep'])
         except Exception as e:  # noqa
             pr = ['walker raised %r' % e]
         key = 'walker:%s:%s' % (cls, c13lib.classify(pr))
